@@ -101,7 +101,8 @@ def convert(model: nn.Module, input_example: Any, conversion_type: str,
     add_node_properties(mod)
     if conversion_type in ('autoimport', 'export'):
         # dictionary of shared feature maskers. Used only in 'autoimport' mode.
-        sm_dict = {} if conversion_type != 'autoimport' else build_shared_features_map(mod)
+        sm_dict = {} if conversion_type != 'autoimport' else build_shared_features_map(
+            mod, exclude_names, exclude_types)
         convert_layers(mod, conversion_type, sm_dict, exclude_names, exclude_types, fold_bn)
     if conversion_type in ('autoimport', 'import'):
         fuse_pit_modules(mod, fold_bn)
@@ -156,7 +157,10 @@ def convert_layers(mod: fx.GraphModule,
     return
 
 
-def build_shared_features_map(mod: fx.GraphModule) -> Dict[fx.Node, PITFeaturesMasker]:
+def build_shared_features_map(mod: fx.GraphModule,
+                              exclude_names: Iterable[str] = (),
+                              exclude_types: Iterable[Type[nn.Module]] = (),
+                              ) -> Dict[fx.Node, PITFeaturesMasker]:
     """Create a map from fx.Node instances to instances of PITFeaturesMasker to be used by PIT
     to optimize the number of features of that node. Handles the sharing of masks among
     multiple nodes.
@@ -192,6 +196,15 @@ def build_shared_features_map(mod: fx.GraphModule) -> Dict[fx.Node, PITFeaturesM
             nodes_to_remove.append(n)
     for n in nodes_to_remove:
         sharing_graph.remove_node(n)
+
+    # layers excluded from the search keep their static shape, hence both the tensors they consume
+    # and the ones they produce must keep their width
+    for n in mod.graph.nodes:
+        if is_layer(n, mod, tuple(pit_layer_map.keys())) and exclude(
+                n, mod, exclude_names, exclude_types):
+            n.meta['output_connected'] = True
+            for i in n.all_input_nodes:
+                i.meta['output_connected'] = True
 
     # each weakly connected component of the sharing graph must share the same features masker
     sm_dict = {}
